@@ -61,7 +61,7 @@ def as_readout(block: bytes, ident: bytes | None = None):
     if b"!" in block or b"/" in block:
         return None
     head = ident if ident else b"/ABC5sim"
-    if b"!" in head or b"\n" in head or not head.startswith(b"/"):
+    if b"\n" in head or not head.startswith(b"/"):
         return None
     text = head + b"\r\n" + block + (b"" if block.endswith(b"\n") or not block else b"\r\n") + b"!\r\n"
     try:
